@@ -50,7 +50,7 @@ theorem vals_spec {P n : Nat} {gT gP gM gA : List ℚ → ℚ} {cs : List (Candl
   constructor
   · intro h0
     obtain ⟨a, ha, ra⟩ := h.rA.step 0
-    refine ⟨[.unit (gA (ts ++ [0])) (2 * maK s.ma2), .exact 0, .exact 0], { s with window := w', tr_ma := tm, ma2 := a }, ?_, ?_,
+    refine ⟨[.approx (gA (ts ++ [0])) (2 * maK s.ma2) (.abs s.mag), .exact 0, .exact 0], { s with window := w', tr_ma := tm, ma2 := a }, ?_, ?_,
       rfl, ⟨h.pos, tw, rtm, h.rP, h.rM, ra⟩⟩
     · have e : (gT (trs ++ [k.trClose s.prev_close]) == 0) = true := by simpa using h0
       simp only [vals, hw, maNext, htm, bind, Except.bind, e, if_true, ha, pure, Except.pure]
@@ -59,9 +59,9 @@ theorem vals_spec {P n : Nat} {gT gP gM gA : List ℚ → ℚ} {cs : List (Candl
     obtain ⟨p, hp, rp⟩ := h.rP.step (pdm k prev)
     obtain ⟨m, hm, rm⟩ := h.rM.step (mdm k prev)
     obtain ⟨a, ha, ra⟩ := h.rA.step t
-    refine ⟨[.unit (gA (ts ++ [t])) (2 * maK s.ma2), .quot pv tr (maK s.tr_ma) (maK s.tr_ma) .price [] none,
+    refine ⟨[.approx (gA (ts ++ [t])) (2 * maK s.ma2) (.abs (rmax s.mag (rabs t))), .quot pv tr (maK s.tr_ma) (maK s.tr_ma) .price [] none,
              .quot mv tr (maK s.tr_ma) (maK s.tr_ma) .price [] none],
-      { s with window := w', prev_close := k.close, tr_ma := tm, plus_di := p, minus_di := m, ma2 := a }, ?_, ?_,
+      { s with window := w', prev_close := k.close, tr_ma := tm, plus_di := p, minus_di := m, ma2 := a, mag := rmax s.mag (rabs t) }, ?_, ?_,
       rfl, ⟨h.pos, tw, rtm, rp, rm, ra⟩⟩
     · have e : (gT (trs ++ [k.trClose s.prev_close]) == 0) = false := by simpa using h0
       have et : (if (pv / tr + mv / tr == 0) = true then 0 else rabs (pv / tr - mv / tr) / (pv / tr + mv / tr)) = t := by
